@@ -333,7 +333,7 @@ func runWS(rec *recorder, sc *Scenario) error {
 				do(cs, cws, c, "wait", n-1, !recovery)
 			}()
 			<-started
-		case name == "restart" || name == "restart-norec" || name == "restart-aged":
+		case name == "restart" || name == "restart-norec" || name == "restart-aged" || name == "restart-norec-aged":
 			if err := quiesce(); err != nil {
 				return err
 			}
@@ -397,11 +397,11 @@ func runWS(rec *recorder, sc *Scenario) error {
 					}
 				}
 			}
-			recovery = name != "restart-norec"
-			agedRestart = name == "restart-aged"
+			recovery = name == "restart" || name == "restart-aged"
+			agedRestart = name == "restart-aged" || name == "restart-norec-aged"
 			aged := make([]bool, wsPlans)
 			for pi := range plans {
-				aged[pi] = agedRestart && st[pi] == "RU"
+				aged[pi] = agedRestart && recovery && st[pi] == "RU" // with recovery disabled nothing is closed either
 			}
 			if agedRestart {
 				time.Sleep(5 * time.Millisecond)
